@@ -77,6 +77,9 @@ func c03Gen(seed int64, tier string) []drv.Scenario {
 		if i%7 == 3 {
 			sc.GoMaxProcs = []int{1, 2, 4}[rng.Intn(3)]
 		}
+		if sp.API {
+			sc.Solo = true // the HTTP API registers on the process-wide Prometheus registry: one API session per child process
+		}
 		out = append(out, sc)
 	}
 	return out
@@ -130,6 +133,15 @@ func c03Spec(rng *rand.Rand, i int) *SessSpec {
 		vb := rng.Intn(sp.NumVB)
 		sp.Steps = append(sp.Steps, Step{Op: "barrier"}, Step{Op: "end", VB: vb, St: []uint32{2, 3, 4, 5}[rng.Intn(4)]}, Step{Op: "waitreopen", VB: vb, N: 2},
 			Step{Op: "append", VB: vb, Items: genSnap(rng, o, &ctr)}, Step{Op: "append", VB: vb, Items: genSnap(rng, o, &ctr)})
+	}
+	if len(sp.Rollbacks) == 0 && sp.SkipUntil == 0 && i%5 == 2 {
+		// a rebalance closes and reopens every stream (from the stored checkpoints: nothing is saved here, so from the start):
+		// the reopened streams deliver their whole backlog again, completely and in order
+		sp.Membership = "dynamic"
+		sp.FirstInfo = [2]int{1, 1}
+		sp.API = true
+		sp.Steps = append(sp.Steps, Step{Op: "barrier"}, Step{Op: "rebalanceapi"}, Step{Op: "waitrebalance", N: 1},
+			Step{Op: "append", VB: rng.Intn(sp.NumVB), Items: genSnap(rng, o, &ctr)})
 	}
 	sp.Steps = append(sp.Steps, Step{Op: "barrier"})
 	return sp
